@@ -248,7 +248,7 @@ CHECKS = {
         technique="Coq proof (structural induction over the abstract syntax with explicit fuel bounds) over a Gallina model of the parser + model/implementation correspondence"),
     "C05": dict(
         category="other",
-        text="Machine-checked for ALL token lists ending with their only Eof (Props/C05.v, 23 theorems): error recovery "
+        text="Machine-checked for ALL token lists ending with their only Eof (Props/C05.v, 27 theorems): error recovery "
              "resynchronises at every proc/type keyword (C05_sync), the declarations tile the token vector (C05_spans), the parse "
              "of a declaration depends only on the tokens up to the next proc/type/Eof (C05_locality), what follows a declaration "
              "boundary is parsed independently of everything in front of it (C05_suffix_independent: identical subtrees, offsets "
@@ -262,6 +262,12 @@ CHECKS = {
              "the length difference - and keeps its data types as well unless it (transitively) mentions a type whose meaning the "
              "damage changed (C05_table_entries_kept, C05_table_contained, C05_table_contained_documents; the taint set is computed, "
              "C05_table_contained_example shows it is needed, C05_table_name_clash shows first-wins is the only other exception). "
+             "DIAGNOSTIC POSITIONS are proved as well (Proofs/ErrInside*.v): every diagnostic collected from a declaration lies inside "
+             "that declaration's token span, strictly in front of the next declaration except the two `soft` errors that skip nothing "
+             "(expected parameter declaration / expression at the very end of a declaration, C05_soft_error_example), the program node "
+             "itself carries none, and under the hypotheses of C05_containment the diagnostics of the damaged region lie between the "
+             "damaged declaration's start and the end of the region (C05_errors_inside_declaration, C05_tree_errors_inside, "
+             "C05_errors_contained_located). "
              "The first formulation of the full statement was too strong "
              "and is refuted (C05_full_statement_refuted: a damage can end a declaration early or turn it into several); "
              "C05_contained_in_one_declaration is the repaired statement. Whether a concrete single-token damage ends at a boundary "
@@ -330,7 +336,9 @@ CHECKS = {
              "conversion equals the LSP rule (UTF-16 columns, CR/LF/CRLF line ends, overshooting column = end of line, overshooting "
              "line = end of text), always yields a character boundary, is monotone (ordered ranges never panic), applying changes "
              "(ranged, batched, full-text) equals the client-side LSP text model along whole histories, and index->position->index "
-             "round-trips. The model is tied to the server by comparing, after every didChange of generated histories, the server's "
+             "round-trips. For every text and every token of its lexing the reported start (and end) sent back as a position addresses "
+             "the same token (C08_token_start_roundtrip, C08_token_lookup, C08_token_cursor; the one token whose end lies between CR and "
+             "LF - an unterminated `'`CR - is characterised exactly, C08_token_end_crlf). The model is tied to the server by comparing, after every didChange of generated histories, the server's "
              "text ($/verif/text) with the Coq model (extracted + coqc VM judge) and with an independent python client model. "
              "Reported ranges: every semantic token, cut out of the client's text under the LSP rules, is one lexer token of it; diagnostics start and end on token boundaries (lexemes glued to non-ASCII characters).",
         design_ref="DESIGN.md section 5, C08",
